@@ -220,7 +220,7 @@ def scenarios(tier):
         for dims in D[nd]:
             for deg in (1, 2):
                 T.append({'name': 'consistency/%s/%s/deg%d' % (g, 'x'.join(map(str, dims)), deg), 'fn': 'pv.props.c02:consistency',
-                          'params': {'g': g, 'dims': dims, 'degree': deg}, 'timeout': 60, 'validate': 1})
+                          'params': {'g': g, 'dims': dims, 'degree': deg}, 'timeout': 120 if g == 'SphericalGrid3D' else 60, 'validate': 1})
             # upwind: exact with the donor-centre value, i.e. first-order consistent (remainder u c1 (x_f - x_donor))
             for us in ((0,) if nd == 1 else (1, -1)):
                 T.append({'name': 'consistency/%s/%s/deg1/upwind%s' % (g, 'x'.join(map(str, dims)), {0: '', 1: '/upos', -1: '/uneg'}[us]),
